@@ -136,8 +136,10 @@ def _judge_world(ctx, mod, t, w, rets, out, key, desc, where, total, dataoff):
             out.append(('violation', key + ':path-extra', '%s [%s]: writes octets %s of the path object beyond the 32-bit id' % (FC.fnloc(ctx, GET_PATH), desc, extra)))
     else:
         got = V.peek(mod, R['pathobj'], 0, 2)
-        if got != plen:
-            out.append(('violation', key + ':path-len', '%s [%s]: reports path length %r, the message says %d' % (FC.fnloc(ctx, GET_PATH), desc, got, plen)))
+        stp, infop = FC.compare_vec(got, plen, 16)
+        if stp != 'eq':
+            out.append(('violation' if stp == 'differs' else 'undecided', key + ':path-len',
+                        '%s [%s]: reports path length %s, the message says %d' % (FC.fnloc(ctx, GET_PATH), desc, got if isinstance(got, int) else B.fmt_vec(got, 16), plen)))
         exp = [V.In(V.PDU, V.H + 2 + i) for i in range(plen)]
         st, text = V.compare_region(R['pathdst'], exp)
         if st != 'ok':
@@ -157,9 +159,12 @@ def _judge_world(ctx, mod, t, w, rets, out, key, desc, where, total, dataoff):
                         % (where, desc, extra, ew)))
     else:
         got = V.peek(mod, R['arr'], 0, 2)
-        if got != nbytes:
-            out.append(('violation', key + ':length', '%s [%s]: reports data_length %s, the message says %d'
-                        % (where, desc, got if isinstance(got, int) else 'symbolic', nbytes)))
+        stl, infol = FC.compare_vec(got, nbytes, 16)
+        if stl == 'differs':
+            out.append(('violation', key + ':length', '%s [%s]: reports data_length %s, the message says %d; witness: %s'
+                        % (where, desc, got if isinstance(got, int) else B.fmt_vec(got, 16), nbytes, FC.fmt_env(infol[1]))))
+        elif stl == 'unknown':
+            out.append(('undecided', key + ':length', '%s [%s]: reported data_length undetermined' % (where, desc)))
         ptr_written = [o for o in R['arr'].writes if o >= 2]
         if ptr_written:
             out.append(('violation', key + ':arr-extra', '%s [%s]: overwrites octets %s of the caller\'s array descriptor' % (where, desc, ptr_written)))
